@@ -221,10 +221,27 @@ def _enumerate_gates(circuit: Circuit) -> tp.Dict[Label, int]:
     result: tp.Dict[Label, int] = dict()
     for input_label in circuit.inputs:
         result[input_label] = len(result)
+    # Gates are numbered in storage order, except that a gate is always numbered
+    # after its operands (the decoder requires operands to be defined earlier).
     for gate_label, gate_ in circuit.gates.items():
         if gate_.gate_type == gate.INPUT:
             continue
-        result[gate_label] = len(result)
+        stack: tp.List[Label] = [gate_label]
+        while stack:
+            current = stack[-1]
+            if current in result:
+                stack.pop()
+                continue
+            pending = [
+                operand
+                for operand in circuit.get_gate(current).operands
+                if operand not in result
+            ]
+            if pending:
+                stack.extend(pending)
+            else:
+                result[current] = len(result)
+                stack.pop()
     return result
 
 
